@@ -83,6 +83,40 @@ def cli_restore(root, key_file, files, tag):
     return 'ok', None
 
 
+async def big_restore_cases(root, encrypted):
+    """a file of ~200 chunks (far more than any window / batch / pool size of restore): one chunk damaged at a time, at several
+    positions of the schedule; restore must fail or write the original bytes"""
+    src = root / 'bsrc'
+    src.mkdir()
+    p = src / 'big'
+    p.write_bytes(lib.content(4242, 9000))
+    files = {str(p.resolve()): p.read_bytes()}
+    r = Repository(Local(root / 'brepo'), concurrent=2, quiet=True, cache_directory=None)
+    settings = {'chunking': {'min_length': 8, 'max_length': 64}, 'encryption': {'kdf': dict(FAST)} if encrypted else None}
+    with lib.quiet():
+        res = await r.init(password=b'pw', settings=settings)
+        await r.unlock(password=b'pw', key=r.serialize(res.key) if res.key else None)
+        await r.snapshot(paths=[src])
+    await r.close()
+    chunks = sorted(q for q in (root / 'brepo' / 'data').rglob('*') if q.is_file())
+    out = []
+    for pos in sorted({0, 1, len(chunks) // 5, len(chunks) // 2, len(chunks) - 2, len(chunks) - 1}):
+        for kind in ('flip', 'delete'):
+            victim = chunks[pos]
+            original = victim.read_bytes()
+            if kind == 'flip':
+                victim.write_bytes(bytes([original[0] ^ 1]) + original[1:])
+            else:
+                victim.unlink()
+            shutil.rmtree(root / 'work', ignore_errors=True)
+            shutil.copytree(root / 'brepo', root / 'work')
+            victim.write_bytes(original)
+            st, detail = await try_restore(root, res.key, files, None, f'big_{pos}_{kind}')
+            shutil.rmtree(root / f'out_big_{pos}_{kind}', ignore_errors=True)
+            out.append((pos, len(chunks), kind, st, detail))
+    return out
+
+
 def corruptions(objects, rnd, tier):
     """yield (description, mutate(workdir)) for every object x corruption class"""
     names = sorted(objects)
@@ -167,6 +201,21 @@ def main():
                                              'detail': dict(detail2, problem='the command exited with status 0 (success) but the content differs')})
                         else:
                             outcomes[{'failed': 'raised', 'ok': 'ok'}[st2]] += 1
+    for encrypted in (False, True):
+        with lib.scratch('vf_c04b_') as root:
+            try:
+                rows = asyncio.run(big_restore_cases(root, encrypted))
+            except Exception as e:
+                import traceback
+                rows = []
+                failures.append({'id': f'big_{int(encrypted)}', 'class': None, 'case': {'encrypted': encrypted}, 'detail': {'problem': 'harness exception', 'tb': traceback.format_exc()[-500:]}})
+            for pos, n, kind, st, detail in rows:
+                cases += 1
+                if st == 'WRONG':
+                    failures.append({'id': f'big_{int(encrypted)}_{pos}_{kind}', 'class': None, 'case': {'encrypted': encrypted, 'chunk': pos, 'of': n, 'corruption': kind},
+                                     'detail': dict(detail, problem='restore reported success but wrote different content')})
+                else:
+                    outcomes[st] += 1
     lib.emit({'status': 'ok', 'cases': cases, 'distinct': cases, 'failures': failures[:10], 'samples': samples, 'outcomes': outcomes,
               'exhaustive': False, 'reproduced': bool(failures)})
 
